@@ -80,6 +80,17 @@ func VerifC12_Project() {
 	for i := 0; i < n; i++ {
 		runningAtShutdown[names[i]] = vGet(w.alive, names[i]) > 0
 	}
+	// optionally one dependent has been asked to stop just before and is still dying
+	if len(deps) > 0 && verifChooseK("a.dependent.is.already.stopping", 2) == 1 {
+		first := names[deps[len(deps)-1][0]]
+		if runningAtShutdown[first] {
+			verifShape("dependent.already.terminating")
+			w.behav[first].latency = 1
+			stopped := make(chan int, 1)
+			go func() { _ = r.StopProcess(first); stopped <- 1 }()
+			verifSettle()
+		}
+	}
 	mu.Lock()
 	shutdownBegan = true
 	mu.Unlock()
